@@ -273,6 +273,10 @@ func runScenario(s scenario) *demuxRun {
 				}
 			case 4:
 				return replace(), true, nil
+			case 5:
+				// data together with skip = false: the default parsing still runs and its data are what comes out for
+				// PSI and PES units; the parser's data stand only where the library parses nothing (CAT, neither PSI nor PES)
+				return replace(), false, nil
 			}
 			return nil, false, nil
 		}))
